@@ -203,9 +203,14 @@ def build_snapshots(ctx):
     slot = W.Slot(0)
     slot.acquire()
     try:
-        h = {"id": "snapshot", "init_cache": "empty", "golden": True,
-             "steps": [{"op": "exec", "proj": "p0", "mode": "generate", "bp": bp, "hash_seed": 0, "diag": None, "timeout": 1800}
-                       for bp in WARM_BPS]}
+        # every blueprint is generated into a FRESH output directory: the snapshot run only fills the
+        # cache, and a defect that shows when one SDK replaces another must not break the set-up
+        # (it is for the histories of the batch to find)
+        steps = []
+        for bp in WARM_BPS:
+            steps.append({"op": "seed_outdir", "proj": "p0", "state": "none", "bp": bp, "toggles": []})
+            steps.append({"op": "exec", "proj": "p0", "mode": "generate", "bp": bp, "hash_seed": 0, "diag": None, "timeout": 1800})
+        h = {"id": "snapshot", "init_cache": "empty", "golden": True, "steps": steps}
         if ctx.corpus["ui_apps"]:
             # the UI workspace enables another feature set of `pavex`: have its docs in the warm caches too
             h["steps"].append({"op": "exec", "proj": "ui", "mode": "generate", "bp": "ui:" + ctx.corpus["ui_apps"][0]["pkg"],
